@@ -34,16 +34,16 @@ def gen_cases(seed, tier):
     n = 260 if tier == 'quick' else 36000
     cases = []
     for i in range(n):
-        kind = ['tone', 'chirp', 'tone', 'reducers'][i % 4]
+        kind = common.stratum(i, 71, ['tone', 'chirp', 'tone', 'reducers'])
         P = int(common.pick(rng, [16, 32, 64] + ([128, 256] if tier == 'thorough' else [])))
         L = int(common.pick(rng, [8, 16, 32, 64] + ([256] if tier == 'thorough' else [])))
         if kind == 'chirp':
             L = int(common.pick(rng, [32, 64] + ([256] if tier == 'thorough' else [])))
         nchan = int(rng.integers(1, min(P // 2 - 1, 6) + 1))
-        sc_kind = i % 3
+        sc_kind = common.stratum(i, 72, 3)
         maxsc = P // 2 - nchan
         sc = [0, maxsc // 2, maxsc][sc_kind]
-        asc = bool((i // 3) % 2)
+        asc = bool(common.stratum(i, 73, 2))
         M = int(common.pick(rng, [2, 4, 8]))
         rows = int(rng.integers(4, 13)) if kind != 'chirp' else int(rng.integers(10, 25))
         spb_need = L * rows
@@ -87,7 +87,7 @@ def gen_cases(seed, tier):
             drift_bins = side * (s1 - s0)
         cases.append(dict(kind=kind, cfg=cfg, L=L, cabs=cabs, j=j, frac=frac, drift_bins=drift_bins,
                           intf=int(rng.integers(1, 9)), level=float(rng.uniform(0.3, 1.0)),
-                          directio=int((i // 4) % 2), sub=int(rng.integers(2 ** 31))))
+                          directio=int(common.stratum(i, 74, 2)), sub=int(rng.integers(2 ** 31))))
     return cases
 
 
